@@ -17,6 +17,8 @@ CLAUSE = CLAUSE + (" Every restore_tz() call passes the same saved-copy pointer 
                    "(change_tz / localtime_tz) of its function.")
 CLAUSE = CLAUSE + (" is_leap_year() reads the year only through remainders by divisors of 400, and on each of the 400 residue "
                    "classes (a finite congruence domain covering every year) its control flow yields the Gregorian rule.")
+CLAUSE = CLAUSE + (" pdc.c takes no remainder of a possibly negative signed value; the indefinite validity window is selected by "
+                   "the day-of-month test alone in both window functions.")
 NOT_DECIDED = ("year inference, leap-day acceptance, validity-window lengths, overflow checks (numeric); "
                "libc setenv/tzset semantics and restore_tz's own ENOMEM path are trusted/documented exceptions.")
 
@@ -193,6 +195,8 @@ def run(ctx, run):
     # ---- RF-UNIT: struct tm years are offsets from 1900 -----------------------------
     _check_tm_year(ctx, run)
     _leap_rule(ctx, run)
+    _no_signed_remainder(ctx, run)
+    _invalid_day_test(ctx, run)
     _offset_applied(ctx, run)
     _sibling_thresholds(ctx, run)
     _leap_check_after_date(ctx, run)
@@ -609,3 +613,71 @@ def _leap_rule(ctx, run):
 
 def _broken(f, i):
     raise AnalysisBroken("is_leap_year: expression `%s` is outside the congruence evaluator" % ex.pretty(f, i)[:40])
+
+
+def _no_signed_remainder(ctx, run):
+    """RF-SIGN: time_t is signed and reference times before 1970 are legal input; the C remainder
+    of a negative value is negative (or zero), so 'seconds since midnight' computed as
+    time % 86400 is off by a day for every such time that is not exactly midnight.  pdc.c derives
+    times of day through gmtime_r()/localtime_r() only: there is no `%` whose left operand is a
+    signed value the interval analysis cannot prove non-negative."""
+    P = ctx.prog
+    n = 0
+    bad = 0
+    for f in P.funcs:
+        if f.file != "src/pdc.c":
+            continue
+        an = None
+        for i, e in enumerate(f.exprs):
+            if not (e["k"] == "bin" and e["op"] == "%") or flow.elem_pos(f).get(i) is None:
+                continue
+            n += 1
+            l = f.exprs[ex.skip(f, e["c"][0])]
+            it = l.get("it")
+            if not it or it[1] == 0:
+                continue
+            an = an or ctx.analysis(f)
+            st = an.state_before_expr(i)
+            v = an.eval(st, e["c"][0]) if st is not None else (None, None)
+            if v[0] is not None and v[0] >= 0:
+                continue
+            bad += 1
+            run.touch(f)
+            run.violation("RF-SIGN", "RF-SIGN:%s:signed-remainder" % f.name, "`%s` takes the remainder of a signed value that can be "
+                          "negative (%s): for reference times before 1970 the result is negative, the time of day is off by up to a "
+                          "day and the validity window ends a day late" % (ex.pretty(f, i)[:50], l.get("t")), ex.loc(f, i))
+    if not bad:
+        run.holds("RF-SIGN", "RF-SIGN:pdc.c:signed-remainder", "%d remainder operations in pdc.c, none on a possibly negative signed "
+                  "operand" % n, "src/pdc.c", nontrivial=False)
+    run.floor("remainder operations in pdc.c", n, 3)
+
+
+def _invalid_day_test(ctx, run):
+    """RF-DOM: Annex F gives a PIL with an *invalid day* (31 February) an indefinite validity
+    window; unreal hours or minutes on a real day do not - such a label still belongs to that
+    day.  In both window functions the indefinite-window branch is selected by the day test
+    against month_days[] alone, not by the stricter vbi_pil_is_valid_date()."""
+    P = ctx.prog
+    for name in ("vbi_pil_lto_validity_window", "vbi_pil_validity_window"):
+        f = P.need(name, "src/pdc.c")
+        run.touch(f)
+        n = 0
+        for bid, b in f.blocks.items():
+            t = b.term
+            if not t or "cond" not in t:
+                continue
+            txt = ex.pretty(f, t["cond"])
+            uses_days = "month_days" in txt
+            uses_valid = any(f.exprs[j]["k"] == "call" and f.exprs[j].get("callee") == "vbi_pil_is_valid_date" for j in ex.walk(f, t["cond"]))
+            if not (uses_days or uses_valid):
+                continue
+            n += 1
+            key = "RF-DOM:%s:invalid-day-test" % name
+            if uses_valid:
+                run.violation("RF-DOM", key, "%s() selects the indefinite window with vbi_pil_is_valid_date(), which also refuses "
+                              "hours above 23 and minutes above 59: a label with an unreal time on a real day gets "
+                              "[TIME_MIN, TIME_MAX] instead of that day's window" % name, "%s:%d" % (f.file, t.get("line", f.line)))
+            else:
+                run.holds("RF-DOM", key, "the indefinite window is selected by `%s`" % txt[:50], "%s:%d" % (f.file, t.get("line", f.line)))
+        if n == 0:
+            raise AnalysisBroken("%s: invalid-day test not found" % name)
